@@ -63,7 +63,9 @@ func allCodes() []string {
 }
 
 var (
-	wraps    = []string{"bare", "fmt", "http", "fmt(http)", "http(fmt)"}
+	// http+resp: the HTTP-status wrapper also carries the response it was made from (what a client hands
+	// to a proxying server); the status rule does not care where a status came from
+	wraps    = []string{"bare", "fmt", "http", "fmt(http)", "http(fmt)", "http+resp", "fmt(http+resp)"}
 	statuses = []int{400, 404, 409, 416, 418, 429, 500, 503, 599}
 	origins  = []string{"std", "wire", "custom"}
 	msgKinds = []string{"plain", "status-prefix", "other-status-prefix", "code-prefix", "full-prefix", "repeated",
@@ -248,6 +250,13 @@ func (sp *spec) build() error {
 		e = ociregistry.NewHTTPError(e, sp.HTTPStatus, nil, nil)
 	case "fmt(http)":
 		e = fmt.Errorf("ctx: %w", ociregistry.NewHTTPError(e, sp.HTTPStatus, nil, nil))
+	case "http+resp", "fmt(http+resp)":
+		resp := &http.Response{StatusCode: sp.HTTPStatus, Status: fmt.Sprintf("%d %s", sp.HTTPStatus, http.StatusText(sp.HTTPStatus)), Proto: "HTTP/1.1", ProtoMajor: 1, ProtoMinor: 1,
+			Header: http.Header{"Content-Type": {"application/json"}}}
+		e = ociregistry.NewHTTPError(e, sp.HTTPStatus, resp, []byte(`{"errors":[]}`))
+		if sp.Wrap == "fmt(http+resp)" {
+			e = fmt.Errorf("ctx: %w", e)
+		}
 	case "http(fmt)":
 		e = ociregistry.NewHTTPError(fmt.Errorf("ctx: %w", e), sp.HTTPStatus, nil, nil)
 	}
